@@ -161,6 +161,13 @@ func apply3(op string, in *model3d.Mesh, first bool) (out *model3d.Mesh, st opSt
 				}
 			})
 			st.RuleOK = sameVertexSet(out, want)
+		case "SubdivideEdges3":
+			// (not a power of two: the points along an edge are computed from either end)
+			if in.NumTriangles() > 130 {
+				out = model3d.SubdivideEdges(in, 1)
+			} else {
+				out = model3d.SubdivideEdges(in, 3)
+			}
 		case "Loop":
 			out = model3d.LoopSubdivision(in, 1)
 			var want []model3d.Coord3D
@@ -531,6 +538,18 @@ func mesh2(name string) (*model2d.Mesh, int, int) {
 		m := model2d.NewMeshRect(model2d.XY(0, 0), model2d.XY(1, 1))
 		m.AddMesh(model2d.NewMeshRect(model2d.XY(3, 0), model2d.XY(5, 2)))
 		return m, 0, 2
+	case "circle200":
+		// finely sampled: the turning angle per vertex is 2*pi/200 = 0.0314
+		m := model2d.NewMesh()
+		n := 200
+		pt := func(i int) model2d.Coord {
+			a := -2 * math.Pi * float64(i%n) / float64(n)
+			return model2d.XY(3*math.Cos(a), 3*math.Sin(a))
+		}
+		for i := 0; i < n; i++ {
+			m.Add(&model2d.Segment{pt(i), pt(i + 1)})
+		}
+		return m, 0, 1
 	}
 	fatal("unknown 2-D mesh %q", name)
 	return nil, 0, 0
@@ -551,6 +570,9 @@ func apply2(op string, in *model2d.Mesh) (out *model2d.Mesh, st opStep) {
 			out, decimating = in.Decimate(in.NumSegments()-1), true
 		case "EliminateColinear":
 			out, decimating, exact = in.EliminateColinear(1e-8), true, true
+		case "EliminateColinearTol":
+			// a tolerance between one and two turning steps of the finely sampled circle
+			out, decimating = in.EliminateColinear(0.05), true
 		case "Subdivide":
 			out = in.Subdivide(1)
 			// corner cutting: every new vertex is 3/4 - 1/4 along an input segment
